@@ -47,6 +47,8 @@ func c20Base(rng *rand.Rand, target int) *vfScenario {
 	return sc
 }
 
+var c20Vals64 = []uint64{1<<64 - 1, 1<<64 - 32767, 1<<64 - 65536, 1 << 63, 1<<63 - 1, 1 << 40}
+
 var c20Vals = []uint32{0, 1, 0, 0, 0x7fffffff, 0xffffffff} // slots 2,3 are n-1, n+1
 
 func c20Gen(class string, seed uint64, tier string) *vfScenario {
@@ -66,8 +68,11 @@ func c20Gen(class string, seed uint64, tier string) *vfScenario {
 		f.A = 4
 	case x < 95:
 		f.A, f.B = 6, int64([]int{0, 0, 1, 4, 99}[rng.IntN(5)])
-	case x < 97:
+	case x < 96:
 		f.A, f.B = 7, int64([]int{1, 1, 2, 7, 300}[rng.IntN(5)])
+	case x < 98:
+		// an absurd 64-bit quantity (a size, a statvfs counter) at some position
+		f.A, f.B, f.S = 8, int64(5+4*rng.IntN(12)), fmt.Sprint(rng.IntN(len(c20Vals64)))
 	default:
 		f.A, f.B = 5, int64(1+rng.IntN(20))
 	}
@@ -86,13 +91,14 @@ type c20Golden struct {
 // position x 6 values, every type substitution, zero-length variants).
 func c20Enumerate(tier string, base uint64, emit func(*vfScenario)) {
 	rng := vfRng(vfMix(base, 0xc20), 7)
-	variants := 1
+	variants := 2
 	if tier == "thorough" {
 		variants = 4
 	}
 	for ti := range c20Targets {
 		for v := 0; v < variants; v++ {
 			b := c20Base(rng, ti)
+			b.Cfg["concr"], b.Cfg["concw"] = int64(v%2), int64((v+ti)%2) // both transfer paths in every tier
 			b.Prop, b.Class, b.Seed = "C20", "enum", vfMix(vfMix(base, uint64(ti)), uint64(v))
 			g := b.clone()
 			g.Prop = "C20"
@@ -130,6 +136,13 @@ func c20Enumerate(tier string, base uint64, emit func(*vfScenario)) {
 				for pos := 1; pos+4 <= len(body); pos += step {
 					for vi := 0; vi < 6; vi++ {
 						add(vfFault{A: 1, B: int64(pos), S: fmt.Sprint(vi)})
+					}
+				}
+				if body[0] == wtAttrs || body[0] == wtExtReply {
+					for pos := 5; pos+8 <= len(body) && pos <= 29; pos += 4 {
+						for vi := range c20Vals64 {
+							add(vfFault{A: 8, B: int64(pos), S: fmt.Sprint(vi)})
+						}
 					}
 				}
 				for _, t := range []int{101, 102, 103, 104, 105, 201, 2, 0, 255} {
@@ -193,6 +206,13 @@ func c20Mutate(body []byte, f vfFault, seed uint64) []byte {
 	case 5:
 		for i := 0; i < int(f.B); i++ {
 			b = append(b, byte(0xa5+i))
+		}
+	case 8:
+		pos := int(f.B)
+		if pos+8 <= len(b) {
+			var vi int
+			fmt.Sscanf(f.S, "%d", &vi)
+			binary.BigEndian.PutUint64(b[pos:], c20Vals64[vi%len(c20Vals64)])
 		}
 	case 7:
 		// a well-formed DATA reply that carries f.B more bytes than the request asked for
